@@ -3,7 +3,7 @@
 (* m.room.message formatted_body; ruma_html::SanitizerConfig as documented).   *)
 (*                                                                             *)
 (* node == [k : {"el","text","other"}, name : STRING,                          *)
-(*          attrs : set of [n : STRING, v : Seq(code point)],                  *)
+(*          attrs : set of [n : STRING (local name), v : Seq(code point), ns : BOOLEAN (in a namespace)],                  *)
 (*          kids : Seq(node), text : Seq(code point)]                          *)
 (* cfg  == [mode : {"none","strict","compat"}, noreply : BOOLEAN,              *)
 (*          remove_el, ignore_el : set of names,                               *)
@@ -91,7 +91,7 @@ Replace(node, cfg) ==
                   ELSE IF cfg.replace_at.kind # "override" /\ UsesMode(cfg) THEN DeprecatedAt(node.name, a) ELSE a
       nm == IF cfg.replace_el.kind # "unset" /\ node.name \in DOMAIN cfg.replace_el.m THEN cfg.replace_el.m[node.name]
             ELSE IF cfg.replace_el.kind # "override" /\ UsesMode(cfg) THEN DeprecatedEl(node.name) ELSE node.name
-  IN [node EXCEPT !.name = nm, !.attrs = {[n |-> newAt(a.n), v |-> a.v] : a \in node.attrs}]
+  IN [node EXCEPT !.name = nm, !.attrs = {[n |-> newAt(a.n), v |-> a.v, ns |-> a.ns] : a \in node.attrs}]
 
 \* ---- what happens to an element
 Action(n, depth, cfg) ==
@@ -106,12 +106,14 @@ Action(n, depth, cfg) ==
 
 CleanAttrs(n, cfg) ==
   LET keep == {a \in n.attrs : /\ a.n \notin Get(cfg.remove_at, n.name, {})
-                               /\ (AttrWhitelisted(cfg) => AttrAllowed(cfg, n.name, a.n))}
+                               \* an attribute in a namespace (xlink:href in foreign content) is never the allowed attribute of
+                               \* the same local name: it is written back with its prefix
+                               /\ (AttrWhitelisted(cfg) => (~a.ns /\ AttrAllowed(cfg, n.name, a.n)))}
       fix(a) == IF a.n # "class" THEN {a}
                 ELSE LET ts == Tokens(a.v, <<>>)
                          ok == SelectSeq(ts, LAMBDA t : ClassOk(cfg, n.name, t))
                      IN IF Len(ok) = Len(ts) THEN {a}
-                        ELSE IF ok = <<>> THEN {} ELSE {[n |-> "class", v |-> JoinSp(ok)]}
+                        ELSE IF ok = <<>> THEN {} ELSE {[n |-> "class", v |-> JoinSp(ok), ns |-> a.ns]}
   IN UNION {fix(a) : a \in keep}
 
 RECURSIVE CleanNode(_, _, _)
@@ -137,7 +139,7 @@ SafeNode(n, depth, cfg) ==
        /\ (MaxDepth(cfg) >= 0 => depth < MaxDepth(cfg))
        /\ \A a \in n.attrs :
             /\ a.n \notin Get(cfg.remove_at, n.name, {})
-            /\ (AttrWhitelisted(cfg) => AttrAllowed(cfg, n.name, a.n))
+            /\ (AttrWhitelisted(cfg) => (~a.ns /\ AttrAllowed(cfg, n.name, a.n)))
             /\ ~HasScheme(a.v, Get(Get(cfg.deny_sc, n.name, <<>>), a.n, {}))
             /\ ((SchemesChecked(cfg) /\ HasSchemeList(cfg, n.name, a.n)) => HasScheme(a.v, SchemeList(cfg, n.name, a.n)))
             /\ (a.n = "class" => \A i \in 1..Len(Tokens(a.v, <<>>)) : ClassOk(cfg, n.name, Tokens(a.v, <<>>)[i]))
